@@ -16,5 +16,5 @@ if action.startswith("touch:"):
 if action == "sleep":
     # longer than the limit the harness sets (3 s), shorter than in-toto's default limit (10 s):
     # a time limit that is not passed on (e.g. into a sublayout) lets this command finish
-    time.sleep(7)
+    time.sleep(8.5)
 sys.exit(0)
